@@ -6,7 +6,7 @@ Import ListNotations.
 From BT.Base Require Import Bits.
 From BT.Layout Require Import Model BuildProofs RoundTrip RecordProofs PosProofs FillProofs.
 From BT.Tracer Require Import Model Decode RecordDecode Spec BoundsProofs Holes History HistoryRecord HistoryStep
-  HistoryMain Examples.
+  HistoryBounds HistoryMain Examples.
 
 (* structures of integer members with integer values are valid argument tuples *)
 Definition int_pair (m : string * ft) (v : val) : Prop :=
@@ -75,4 +75,17 @@ Example history_instance :
 Proof.
   destruct history_premises as (A & B & C & D & E & F & G & H & _).
   exact (history_records ex_d [] 16 A 16 ex_or ex_tail B C D E F G H).
+Qed.
+
+(* the weaker premises (every open packet's content offset inside its buffer at call boundaries) hold
+   as well, and give the in-bounds conclusion of C02 for this run *)
+Example history_premises_offb :
+  offb ex_w1 /\ offb_run ex_d ex_w1 ex_tail.
+Proof. split; [apply offbb_ok|apply offb_runb_ok]; vm_compute; reflexivity. Qed.
+
+Example history_in_bounds_instance : inb_run ex_d ex_w1 ex_tail.
+Proof.
+  destruct history_premises as (A & B & C & D & E & _ & G & _).
+  destruct history_premises_offb as [O1 O2].
+  exact (history_in_bounds ex_d [] 16 A 16 ex_or ex_tail B C D E O1 O2 G).
 Qed.
